@@ -75,6 +75,9 @@ class FnInfo:
     n_asserts: int = 0
     trusted: bool = False   # external_body
     clauses: List[str] = field(default_factory=list)
+    n_loops: int = 0        # loops in the real body
+    n_closures: int = 0     # closures in the real body that no directive annotates or replaces (Verus exports nothing about their result)
+    shape_changed: str = ''  # non-empty: the body has loops / closures the contracts were not written for
 
 
 def line_of(src: str, pos: int) -> int:
@@ -232,6 +235,7 @@ def process_fn(src: str, src_file: str, it: rustscan.Item, dirs: List[Directive]
         raise Undecided('fn %s has no body' % it.name)
     body_close_i = match_close(st, body_open_i)
     drops = info.drops
+    n_edits0 = len(edits)
     # --- D2: async / .await
     n_await = 0
     await_tok_idx = []
@@ -608,6 +612,42 @@ def process_fn(src: str, src_file: str, it: rustscan.Item, dirs: List[Directive]
             edits.append(Edit(it.start, it.start, '\n'.join(d.payload) + '\n', 'attr'))
             if 'external_body' in ' '.join(d.payload):
                 info.trusted = True
+    # --- shape guard.  The contracts of a template are written for a body with a particular number of loops (each
+    #     with its invariant) and of closures (each annotated by D6 or replaced by D5).  A loop without an invariant or
+    #     a closure without an exported `ensures` makes Verus forget facts the code does establish, so a failed
+    #     obligation in such a body says nothing about the code: the driver reports it as undecided, never as a
+    #     violation.  Obligations that are discharged stay discharged (forgetting facts is sound).
+    mine = edits[n_edits0:]
+
+    def handled(pos):
+        for e in mine:
+            if e.end > e.pos and e.pos <= pos < e.end:
+                return True
+        return False
+    ncl = 0
+    for i in range(body_open_i + 1, body_close_i):
+        t = st[i]
+        if t.kind != 'punct' or t.text != '|':
+            continue
+        pv = st[i - 1]
+        starts = pv.text in ('(', ',', '=', '{', ';', 'move', 'return') or (pv.text == '>' and st[i - 2].text == '=' and st[i - 2].end == pv.start)
+        if pv.text == '=' and st[i - 2].text in ('=', '!', '<', '>', '|', '&', '^', '+', '-', '*', '/', '%') and st[i - 2].end == pv.start:
+            starts = False      # `==`, `<=`, `|=` ...: an operator, not the start of an expression after `=`
+        if starts and not handled(t.start):
+            ncl += 1
+    info.n_loops = len(loops)
+    info.n_closures = ncl
+    addressed = set()
+    for d in dirs:
+        if d.kind in ('loop', 'loop?'):
+            addressed.add(int(d.arg.split()[0]))
+    notes = []
+    bare = [i for i in range(1, len(loops) + 1) if i not in addressed]
+    if bare:
+        notes.append('%d loop(s) in the body, the contracts carry invariants for %d' % (len(loops), len(addressed)))
+    if ncl:
+        notes.append('%d closure(s) whose result Verus leaves unconstrained (no annotation in the contracts)' % ncl)
+    info.shape_changed = '; '.join(notes)
 
 
 def split_clauses(text: str):
@@ -784,6 +824,7 @@ class Unit:
                 edits.append(Edit(it.body_open, it.end, '{ unimplemented!() }', 'real', 'STUB'))
                 drops.append('STUB body dropped: contract assumed here, verified in another unit')
                 info.trusted = True
+                info.shape_changed = ''
             else:
                 process_fn(src, file, it, dirs, parent, edits, info, self.state_fields)
             infos.append(info)
